@@ -86,9 +86,9 @@ pub(crate) fn raw_string(input: &[u8]) -> IResult<&[u8], Cow<'_, str>> {
                     return Err(nom::Err::Error(NomError::new(input, ErrorKind::Char)));
                 }
             }
-            b' ' | b',' | b'.' | b':' | b'{' | b'}' | b'[' | b']' | b'(' | b')' | b'?' | b'@'
-            | b'$' | b'|' | b'<' | b'>' | b'!' | b'=' | b'+' | b'-' | b'*' | b'/' | b'%' | b'"'
-            | b'\'' => {
+            b' ' | b'\t' | b'\n' | b'\r' | b',' | b'.' | b':' | b'{' | b'}' | b'[' | b']' | b'('
+            | b')' | b'?' | b'@' | b'$' | b'|' | b'&' | b'<' | b'>' | b'!' | b'=' | b'+' | b'-'
+            | b'*' | b'/' | b'%' | b'"' | b'\'' => {
                 break;
             }
             _ => {
